@@ -8,7 +8,7 @@ from .. import gen
 from ..model import kkt_violations, weights_of
 from ..devices import site_has
 from ..runner import execute
-from .common import V, chain_accept, finite_result, knob_key, seam_violations, small_sample
+from .common import V, chain_accept, finite_result, knob_key, same_point, seam_violations, small_sample
 
 ID = "C07"
 LEVEL = "fault_enumeration"
@@ -35,7 +35,7 @@ COMPS = ("obj", "grad", "cons", "jac", "hess")
 def generate(rng, seed, index, tier):
     fam = str(rng.choice(["qp", "nlp", "degenerate", "domain", "saddle", "expo"], p=[0.3, 0.3, 0.1, 0.1, 0.1, 0.1]))
     spec, x0, y0 = gen.gen_problem(rng, fam)
-    kw = gen.gen_params(rng, spec, x0, y0, p_knob=0.55, reporting=False, globalized=False)
+    kw = gen.gen_params(rng, spec, x0, y0, p_knob=0.55, reporting=False, globalized=False, numeric=0.2)
     if rng.random() < 0.15:
         kw["newton_type"] = "Globalized"
     cap = TIERS[tier]["cap"]
@@ -48,9 +48,14 @@ def generate(rng, seed, index, tier):
         kw["report_rcond"] = True
     if fam == "expo" and rng.random() < 0.5:
         kw["lamb_init"] = float(rng.choice([1e-3, 1e-2]))
+    clock = None
+    if rng.random() < 0.2:
+        # a deadline on top of the failures: the clock ticks per read, the limit lands somewhere inside the run
+        kw["time_limit"] = float(rng.choice([0.5, 2.0, 6.0]))
+        clock = {"t0": gen.T0, "steps": [], "tail": float(rng.choice([0.05, 0.11, 0.3]))}
     mode = str(rng.choice(["enum", "swarm", "region", "x0"], p=[0.5, 0.2, 0.2, 0.1]))
     return gen.base_world(
-        seed, ID, index, spec, x0, y0, kw,
+        seed, ID, index, spec, x0, y0, kw, clock=clock,
         case={"mode": mode, "max_points": TIERS[tier]["max_points"], "pts_seed": int(rng.integers(0, 2**31))},
     )
 
@@ -173,9 +178,18 @@ def _oracle(world, R, F, fset, sub, stats):
         # the Armijo search of the globalized Newton variant gives up with its own deliberate
         # error (C06) for some step sizes, faults or not; a fault merely changes which step
         # sizes are visited.  C07 quantifies over step solvers and controllers, not Newton
-        # variants, so this ending is counted, not judged.
-        bump("ended.line_search_failed")
-        ok_outcome = True
+        # variants, so this ending is counted, not judged -- unless a failure fired *inside the
+        # very attempt that gave up*: then the failure was not answered by discarding the attempt
+        # (a failed evaluation or factorisation ends the attempt at once), it was searched around.
+        last = F.trials[-1] if F.trials else None
+        in_last = 0
+        if last is not None and last.exc is not None:
+            in_last = (last.nfired_after - last.nfired_before) + len([f for f in F.lin_fired[last.lin_before[2] : last.lin_after[2]] if f[0] != "obs_solve"])
+        if in_last:
+            bump("ended.line_search_failed_with_failure_inside")
+        else:
+            bump("ended.line_search_failed")
+            ok_outcome = True
     if x0_persistent:
         if oc != "deliberate:Failed to evaluate initial iterate":
             out.append(V(ID, "initial-point", "persistent failure of %s at x0 ended as %s instead of the initial-point error" % (fset[0]["comp"], oc), sub, ctx, sig_extra=oc.split(":")[0] + ":" + (F.exc_type or "") + "@" + (F.exc_func or "")))
@@ -199,15 +213,16 @@ def _oracle(world, R, F, fset, sub, stats):
         c2 = dict(ctx, t=t)
         if tr.exc is not None:
             continue  # outcome clause already judged the run
-        if tr.accepted or tr.out is not tr.inp:
-            out.append(V(ID, "not-discarded", "trial %d saw an injected failure but was %s with %s iterate" % (t, "accepted" if tr.accepted else "rejected", "a new" if tr.out is not tr.inp else "the same"), sub, c2))
+        if tr.accepted or not same_point(tr.out, tr.inp):
+            out.append(V(ID, "not-discarded", "trial %d saw an injected failure but was %s with %s iterate" % (t, "accepted" if tr.accepted else "rejected", "a new" if not same_point(tr.out, tr.inp) else "the same"), sub, c2))
             continue
         bump("trials.discarded")
-        if tr.lamb != 2.0 * (1.0 / tr.dt):
-            out.append(V(ID, "lambda", "trial %d failed but lambda went %r -> %r (expected doubling)" % (t, 1.0 / tr.dt, tr.lamb), sub, c2))
+        # "the step size is reduced": a strictly larger, finite inverse step size (the factor is the code's business)
+        if not (tr.lamb > 1.0 / tr.dt and np.isfinite(tr.lamb)):
+            out.append(V(ID, "lambda", "trial %d failed but lambda went %r -> %r (step size not reduced)" % (t, 1.0 / tr.dt, tr.lamb), sub, c2))
         if t + 1 < len(T):
             nx = T[t + 1]
-            if nx.inp is not tr.inp:
+            if not same_point(nx.inp, tr.inp):
                 out.append(V(ID, "moved", "iterate changed after the failed trial %d" % t, sub, c2))
             if nx.dt != 1.0 / tr.lamb:
                 out.append(V(ID, "lambda", "trial %d does not use the step size returned by failed trial %d" % (t + 1, t), sub, c2))
@@ -278,7 +293,9 @@ def case(world):
     execs = 1
     if world["params"].get("display_interval", 0.1) == 0.0:
         stats["worlds.display_rows"] = 1
-    nat = sum(1 for t in R.trials if (not t.accepted) and t.out is t.inp)
+    if world["params"].get("time_limit") is not None:
+        stats["worlds.with_deadline"] = 1
+    nat = sum(1 for t in R.trials if (not t.accepted) and same_point(t.out, t.inp))
     if nat:
         stats["reference.natural_failed_trials"] = nat
     oc = R.outcome
